@@ -197,6 +197,42 @@ func genMux() (string, error) {
 		return true
 	})
 	fmt.Fprintf(&b, "/-- every stream of a connection has its own message assembler (a fresh `make` per `Stream{…}` in NewStreams) -/\ndef assemblerPerStream : Bool := %v\n", nStreams > 0 && fresh == nStreams)
+	// which key does AddPeer record as the peer's identity (PeerInfo.Address.PublicKey — the Sender of every
+	// delivered message and the PeerSet key)? Recognised shape: every assignment `info.Address = &lib.PeerAddress{…}`
+	// in AddPeer has `PublicKey: connection.Address.PublicKey` (the key the handshake authenticated), and there is one.
+	ap := p2f.FindFunc("P2P", "AddPeer")
+	if ap == nil {
+		return "", fmt.Errorf("p2p/p2p.go: AddPeer not found")
+	}
+	nAssign, nAuth := 0, 0
+	ast.Inspect(ap.Body, func(n ast.Node) bool {
+		as, ok := n.(*ast.AssignStmt)
+		if !ok || len(as.Lhs) != 1 || len(as.Rhs) != 1 {
+			return true
+		}
+		lhs := g.ExprText(as.Lhs[0])
+		if lhs != "info.Address" && lhs != "info.Address.PublicKey" {
+			return true
+		}
+		nAssign++
+		rhs := g.ExprText(as.Rhs[0])
+		if lhs == "info.Address.PublicKey" && rhs == "connection.Address.PublicKey" {
+			nAuth++
+		}
+		if lhs == "info.Address" && strings.HasPrefix(rhs, "&lib.PeerAddress{") && strings.Contains(rhs, "PublicKey: connection.Address.PublicKey,") {
+			nAuth++
+		}
+		return true
+	})
+	fmt.Fprintf(&b, "/-- AddPeer records the handshake-authenticated key (`connection.Address.PublicKey`) as the peer's identity on every path -/\ndef attributionIsAuthenticatedKey : Bool := %v\n", nAssign > 0 && nAssign == nAuth)
+	strictSrc := ""
+	ast.Inspect(ap.Body, func(n ast.Node) bool {
+		if is, ok := n.(*ast.IfStmt); ok && strings.Contains(g.ExprText(is.Cond), "strictPublicKey") {
+			strictSrc = g.StmtText(is)
+		}
+		return true
+	})
+	fmt.Fprintf(&b, "def src_strictKeyCheck : String := %q\n", strictSrc)
 	nw := p2f.FindFunc("", "New")
 	if nw == nil {
 		return "", fmt.Errorf("p2p/p2p.go: New not found")
